@@ -10,6 +10,7 @@ import re
 import z3
 from .sym import *
 from .models import m_identity
+from .prog import norm_callee
 
 _tok = [0]
 
@@ -405,7 +406,7 @@ def m_unwrap_or_default_map(eng, ctx, f, path, args, dty):
 
 
 def chain_elements(eng, ctx, it):
-    """(base elements, [closures of map adaptors, innermost first]) of an iterator chain over a list-shaped container"""
+    """(base elements, [closures / fn items of map adaptors, innermost first]) of an iterator chain over a list-shaped container"""
     maps = []
     while isinstance(it, Native) and it.kind == "iterchain" and it.data[0] == "map":
         maps.append(it.data[2])
@@ -429,7 +430,14 @@ def m_collect(eng, ctx, f, path, args, dty):
         for x in elems:
             v = x
             for clo in maps:
-                v = yield ("callv", clo, [v])
+                if isinstance(clo, FnItem):
+                    norm = norm_callee(clo.path)
+                    h = next((hh for pat, hh in eng.models.items() if not pat.startswith("__") and re.search(pat, norm)), None)
+                    if h is None:
+                        raise Unsupported(f"map({clo.path}): no model")
+                    v = h(eng, c, None, clo.path, [v], None)
+                else:
+                    v = yield ("callv", clo, [v])
             out.append(v)
         if all(isinstance(v, Native) and v.kind == "sstr" for v in out):
             return Native("strvec", tuple(out))
